@@ -256,7 +256,7 @@ fn build_state(u: u8, hist: Vec<Op>) -> St {
     let r = replay_hist(u, &hist);
     let snaps: Vec<Snap> = r.ps.iter().map(|p| p.verif_snapshot()).collect();
     let isnaps: Vec<ISnap> = r.ips.iter().map(|p| p.verif_snapshot()).collect();
-    let bad = match std::panic::catch_unwind(std::panic::AssertUnwindSafe(|| check_history(u, &hist))) {
+    let bad = match crate::engine::in_subject(|| std::panic::catch_unwind(std::panic::AssertUnwindSafe(|| check_history(u, &hist)))) {
         Ok(b) => b,
         Err(e) => Some(format!("panic: {}", panic_message(&e))),
     };
@@ -401,7 +401,7 @@ fn run_histories(ctx: &mut Ctx, u: u8, depth: usize) {
         if hist.len() <= 2 {
             ctx.announce(&json!({"mode": "histories", "prefix": hist.iter().map(|o| o.to_json()).collect::<Vec<_>>()}));
         }
-        match std::panic::catch_unwind(std::panic::AssertUnwindSafe(|| check_history(u, hist))) {
+        match crate::engine::in_subject(|| std::panic::catch_unwind(std::panic::AssertUnwindSafe(|| check_history(u, hist)))) {
             Ok(None) => {}
             Ok(Some(why)) => {
                 ctx.violation("partition", hist_json(u, hist), why, hist.len() as u64);
@@ -448,7 +448,7 @@ fn run_unions(ctx: &mut Ctx, u: u8, depth: usize) {
             if hist.len() <= 2 {
                 ctx.announce(&json!({"mode": "unions", "universe": u, "prefix": hist.iter().map(|o| o.to_json()).collect::<Vec<_>>()}));
             }
-            let res = std::panic::catch_unwind(std::panic::AssertUnwindSafe(|| {
+            let res = crate::engine::catch_subject(|| {
                 let r = replay_hist(u, hist);
                 let obs = observe(u, &r);
                 if let Some(e) = check_state(u, &r, &obs, false) {
@@ -483,7 +483,7 @@ fn run_unions(ctx: &mut Ctx, u: u8, depth: usize) {
                     }
                 }
                 None
-            }));
+            });
             match res {
                 Ok(None) => {}
                 Ok(Some(why)) => {
@@ -597,7 +597,7 @@ fn run_deep(ctx: &mut Ctx, u: u8, max_finds: u8, state_cap: usize) {
                         let mut trans = 0u64;
                         for SendNode(nd) in c {
                             let r = &nd.r;
-                            let res = std::panic::catch_unwind(std::panic::AssertUnwindSafe(|| -> Option<Bad> {
+                            let res = crate::engine::catch_subject(|| -> Option<Bad> {
                                 let probe = clone_real(r);
                                 if key_of(&probe, 0, 0) != key_of(r, 0, 0) {
                                     return Some((nd.id, None, "clone has a different internal state than its original".into()));
@@ -664,7 +664,7 @@ fn run_deep(ctx: &mut Ctx, u: u8, max_finds: u8, state_cap: usize) {
                                     }
                                 }
                                 None
-                            }));
+                            });
                             match res {
                                 Ok(None) => {}
                                 Ok(Some(b)) => return (out, trans, Some(b)),
